@@ -1145,16 +1145,19 @@ func NewSingleAddressWallet(priv types.PrivateKey, cm ChainManager, store Single
 		}
 	})
 
+	// register the rebroadcast goroutine with the thread group before it is
+	// started, so that a Close right after construction waits for it
+	ctx, cancel, err := sw.tg.AddContext(context.Background())
+	if err != nil {
+		stop()
+		return nil, fmt.Errorf("failed to add context: %w", err)
+	}
+
 	// rebroadcast transactions in a separate goroutine
 	go func() {
-		defer stop()
-
-		ctx, cancel, err := sw.tg.AddContext(context.Background())
-		if err != nil {
-			sw.log.Error("failed to add context", zap.Error(err))
-			return
-		}
+		// unsubscribe before the thread group is told that we are done
 		defer cancel()
+		defer stop()
 
 		// debounce rebroadcasting during heavy syncing
 		debounce := time.NewTimer(cfg.RebroadcastDebounceInterval)
